@@ -13,7 +13,9 @@ warnings.filterwarnings("ignore")
 
 THEOREMS = ["Yaw.C16.random_sizes", "Yaw.C16.random_full_chunks", "Yaw.C16.reseed_history_free",
             "Yaw.C16.window_of_monotone", "Yaw.C16.joint_attributes", "Yaw.C16.glue_pinned", "Yaw.C16.seed_invariant",
-            "Yaw.C16.reproducible_after_any_use", "Yaw.C16.flags"]
+            "Yaw.C16.reproducible_after_any_use", "Yaw.C16.flags",
+            "Yaw.C16Box.cyl_roundtrip", "Yaw.C16Box.affine_mem", "Yaw.C16Box.box_window", "Yaw.C16Box.preimage_box",
+            "Yaw.C16Box.equal_area"]
 RULE = ("BoxRandoms over windows incl. both poles, the full sphere and thin strips x requested sizes around multiples "
         "of the chunk size x seeds x attribute arrays: chunk sizes of a pass (EXACT vs model), total size of "
         "RandomReader passes and of Catalog.from_random (centres and patch_num modes), every point inside the window "
@@ -27,7 +29,8 @@ def run(prop, tier, seed, replay):
     from yaw.catalog.readers import RandomReader
     from yaw.randoms import BoxRandoms
 
-    ck = Check(prop, tier, seed, kernels=["k_reader", "k_randoms"], theorems=THEOREMS, lean_modules=["YawVerif.Props.C16"], rule=RULE,
+    ck = Check(prop, tier, seed, kernels=["k_reader", "k_randoms", "k_boxrandoms"], theorems=THEOREMS,
+               lean_modules=["YawVerif.Props.C16", "YawVerif.Props.C16Box"], rule=RULE,
                assumptions=["numpy Generator.uniform / integers are uniform and reproducible from their seed",
                             "np.arcsin / np.sin are monotone to within 1 ulp"])
     ck.translate()
@@ -178,6 +181,38 @@ def run(prop, tier, seed, replay):
             ck.extra["uniformity_chi2_79dof"] = chi2
             if chi2 > 160:          # p < 1e-7 for 79 dof
                 ck.add_violation(f"random points are not uniform in area (chi2={chi2:.1f} for 79 dof, fixed seed)", {"seed": 424242})
+            # ---- tie of the generated footprint formulas (Generated/RandomsReal.lean): the limits the constructor stores
+            #      and what `_draw_coords` does with the two uniform variates, observed through a recording generator
+            for win in windows:
+                g = BoxRandoms(*win, seed=5)
+                ra0, ra1, d0, d1 = (np.deg2rad(x) for x in win)
+                lim_model = (ra0, ra1, np.sin(d0), np.sin(d1))          # boxXMin boxXMax boxYMin boxYMax
+                lim_impl = (g.x_min, g.x_max, g.y_min, g.y_max)
+                ck.case(None, ("formulas", win))
+                if not all(abs(float(a) - float(b)) <= 4e-16 for a, b in zip(lim_impl, lim_model)):
+                    ck.add_tie_break("BoxRandoms window limits vs generated boxXMin..boxYMax", {"window": win, "impl": [float(x) for x in lim_impl],
+                                                                                               "model": [float(x) for x in lim_model]})
+                    continue
+
+                class Rec:
+                    def __init__(self, rng):
+                        self.rng, self.calls = rng, []
+
+                    def uniform(self, *a, **k):
+                        out = self.rng.uniform(*a, **k)
+                        self.calls.append((a, k, out))
+                        return out
+
+                    def __getattr__(self, name):
+                        return getattr(self.rng, name)
+                rec = Rec(g.rng)
+                g.rng = rec
+                ra, dec = g._draw_coords(257)
+                ok = (len(rec.calls) == 2 and [c[0][:2] for c in rec.calls] == [(g.x_min, g.x_max), (g.y_min, g.y_max)]
+                      and np.array_equal(ra, rec.calls[0][2]) and np.array_equal(dec, np.arcsin(rec.calls[1][2])))
+                if not ok:
+                    ck.add_tie_break("BoxRandoms._draw_coords vs generated drawRa / drawDec (x uniform in [x_min, x_max], "
+                                     "dec = arcsin of y uniform in [y_min, y_max])", {"window": win, "calls": [str(c[0][:2]) for c in rec.calls]})
     finally:
         C.remove(root)
     ans = ck.driver("GenReader", reqs)
